@@ -92,6 +92,16 @@ def gen_actor(rng, aid, ntrees, others):
         ops.append({'op': 'generate_stats', 'tree': tn0,
                     'path': rng.choice([[0, 1], [1, 0], [0]])})
 
+    if rng.chance(0.04):
+        # a preamble / diff beyond 64 KiB with no line endings declared,
+        # then serialised (observers must leave it that way)
+        tn0 = names[0]
+        ops.append({'op': 'set', 'tree': tn0, 'path': rng.choice([[], [0]]),
+                    'attr': 'preamble',
+                    'value': rng.choice(['line\n', 'l\r\n']) * 17000})
+        ops.append({'op': 'to_bytes', 'tree': tn0})
+        ops.append({'op': 'write_shared', 'tree': tn0})
+
     n = rng.randint(6, 24)
     everyone = names + others
 
@@ -157,6 +167,19 @@ def gen_actor(rng, aid, ntrees, others):
                 # a mutator of its own tree only
                 ops.append({'op': 'generate_stats', 'tree': tn,
                             'path': rng.choice([[], [0], [1], [0, 0]])})
+        elif k < 18 and rng.chance(0.5):
+            # a file section of any tree copied into this one, then edited
+            # (nested metadata in place, the diff, options)
+            ops.append({'op': 'clone_file', 'tree': tn,
+                        'from': rng.choice(everyone),
+                        'path': rng.choice([[0, 0], [0, 1], [1, 0]]),
+                        'change': rng.below(2),
+                        'how': rng.choice(['deepcopy', 'deepcopy',
+                                           'pickle'])})
+            ops.append({'op': 'meta_nested', 'tree': tn,
+                        'path': [rng.below(2), rng.below(3)],
+                        'prefer': rng.choice(['stats', 'path', 'items']),
+                        'key': 'zz', 'value': 7})
         elif k < 18:
             ops.append({'op': rng.choice(['repr', 'iter', 'getattrs']),
                         'tree': tn})
